@@ -10,11 +10,17 @@ def feed(filler, plan, delay):
     from harness.checks.tree_common import SPLITS
     n = 0
     with filler as f:
-        for s, ids in plan:
+        for s, ids, *rej in plan:
             for v in ids:
                 if delay:
                     time.sleep(delay)
                 f.write_example(values=sp.val(v), split=SPLITS[s]); n += 1
+            if rej and rej[0]:
+                # the writer's last example for this split is one the library rejects (wrong shape); the writer carries on
+                try:
+                    f.write_example(values={"a": sp.np.zeros((3,), dtype=sp.np.int32)}, split=SPLITS[s])
+                except Exception:  # noqa: BLE001
+                    pass
     return [os.getpid(), n, plan[0][1][0] if plan and plan[0][1] else -1]
 
 
